@@ -224,6 +224,48 @@ def check_scale(check, an: Analysis, rule: str, throttle=None, scale='self._thro
                         and congested
                     kinds['congested=throughput/sum'] = kinds.get(
                         'congested=throughput/sum', True) and ok
+    # ... and it *returns* to 1: every way through that finds the demand within the
+    # throughput leaves with a scale of 1 -- stored, or found to be 1 already (a pipe that
+    # stays throttled after the congestion has ended slows everyone down for nothing)
+    def _is_one(path, index, event):
+        node = rules.value_expr(path, index, event.node)
+        if not (isinstance(node, ast.Compare) and len(node.ops) == 1):
+            return None
+        sides = [ast.unparse(node.left), ast.unparse(node.comparators[0])]
+        other = [x for x in (node.left, node.comparators[0]) if ast.unparse(x) != scale]
+        if scale not in sides or len(other) != 1 or not (
+                isinstance(other[0], ast.Constant) and isinstance(
+                    other[0].value, (int, float)) and float(other[0].value) == 1.0):
+            return None
+        if isinstance(node.ops[0], ast.NotEq):
+            return event['value'] is False
+        if isinstance(node.ops[0], ast.Eq):
+            return event['value'] is True
+        return None
+    n_relaxed, stuck = 0, None
+    for path in an.paths(throttle):
+        if not path.normal:
+            continue
+        guards = [(i, e) for i, e in enumerate(path.events) if e.kind == 'test'
+                  and inequality(rules.value_expr(path, i, e.node)) == overload]
+        if not guards or guards[-1][1]['value'] is not False:
+            continue
+        n_relaxed += 1
+        stores = [(i, e) for i, e in enumerate(path.events) if e.kind == 'store'
+                  and e['path'] == scale]
+        if stores:
+            value = rules.value_expr(path, stores[-1][0], stores[-1][1]['value'])
+            good = isinstance(value, ast.Constant) and isinstance(
+                value.value, (int, float)) and float(value.value) == 1.0
+        else:
+            good = any(_is_one(path, i, e) is True for i, e in enumerate(path.events)
+                       if e.kind == 'test')
+        if not good:
+            stuck = stuck or (path, guards[-1][0])
+    check.instance(rule, 'scale:returns-to-1', stuck is None and n_relaxed > 0,
+                   where_fn(throttle.fn), 'every way through that finds demand <= throughput '
+                   'leaves the scale at 1 (%d such paths)' % n_relaxed,
+                   path=rules.path_lines(*stuck) if stuck else None, analysed=n_relaxed)
     for name in ('uncongested=1', 'congested=throughput/sum'):
         check.instance(rule, 'scale:%s' % name, kinds.get(name) is True,
                        where_fn(throttle.fn),
